@@ -4,8 +4,9 @@
    [verifies a b] stands for vauthutils.VerifySignature(a, b, MessageToSign) = (true, nil) — ecrecover over
    keccak(fixed message) yields a.  It is universally quantified: nothing is assumed about cryptography, the
    theorems say that the store is written only under [verifies].  A history is any list of operations:
-   proof submissions (any submitter / account / signature string / fee / balance), user transactions of any shape
-   (Model/Lane.v), ICA host packets, and arbitrary coin movements / mints / burns by other modules. *)
+   proof submissions (any submitter / fee payer / account / signature string / fee / balance, top level or nested in
+   MsgExec), user transactions of any shape (Model/Lane.v), ICA host packets, and arbitrary coin movements / mints /
+   burns by other modules. *)
 From Evm Require Import Lane LaneProofs Vauth VauthProofs.
 Open Scope Z_scope.
 
@@ -18,6 +19,16 @@ Theorem C16_vesting_handler_needs_proof : forall e sh r k a,
 Proof. intros e sh r k a. apply vesting_handler_needs_proof. destruct k0; reflexivity. Qed.
 Print Assumptions C16_vesting_handler_needs_proof.
 
+(* the same seen from the sender: a transaction that carries a vesting-creation message of any of the three kinds for
+   a target without a stored proof — top level beside any other messages, or nested in MsgExec at any depth — is
+   refused by the ante handler as a whole: nothing executes, the state is unchanged *)
+Theorem C16_unproven_target_rejected : forall st vb rest sh r k a,
+  has st a = false ->
+  In (r, MVesting k a) (map (pair TopLevel) (msgs sh) ++ map (pair InAuthzExec) (nested_all (msgs sh))) ->
+  vesting_tx st vb rest sh = (st, VAnteRej).
+Proof. exact unproven_target_rejected. Qed.
+Print Assumptions C16_unproven_target_rejected.
+
 (* one operation that is not an ICA packet: a vesting account appears only at an address that ALREADY has a proof *)
 Theorem C16_vesting_needs_proof_step : forall verifies st o a,
   is_ica o = false -> vested (fst (step verifies st o)) a = true -> vested st a = true \/ has st a = true.
@@ -25,16 +36,18 @@ Proof. exact vesting_needs_proof_step. Qed.
 Print Assumptions C16_vesting_needs_proof_step.
 
 (* all histories without ICA packets: every vesting account created has (and keeps) a proof *)
-Theorem C16_vesting_needs_proof : forall verifies l st,
+Theorem C16_vesting_needs_proof_partial : forall verifies l st,
   Forall (fun o => is_ica o = false) l -> inv st -> inv (run verifies st l).
 Proof. exact vesting_needs_proof. Qed.
-Print Assumptions C16_vesting_needs_proof.
+Print Assumptions C16_vesting_needs_proof_partial.
 
 (* The statement over ALL histories is false of the faithful model: a message carried by an ICA host packet is
-   executed without the ante handler.  Known finding C16/routes/ica-host/vesting-created-without-proof (#15a). *)
+   executed without the ante handler.  Known finding C16/routes/ica-host/vesting-created-without-proof (#15a).
+   The gap between _full and _partial is exactly the ICA host route (and, authority-gated, governance proposals). *)
 Definition C16_vesting_needs_proof_full : Prop := forall verifies l st, inv st -> inv (run verifies st l).
 
-Definition st0 : vstate := {| proofs := fun _ => None; bal := fun _ => 0; supply := 0; vested := fun _ => false |}.
+Definition st0 : vstate :=
+  {| proofs := fun _ => None; bal := fun _ => 0; supply := 0; vested := fun _ => false; acct := fun _ => false |}.
 
 Theorem C16_vesting_needs_proof_full_refuted : ~ C16_vesting_needs_proof_full.
 Proof.
@@ -65,30 +78,47 @@ Theorem C16_proof_final : forall verifies l st a g,
 Proof. exact proof_final. Qed.
 Print Assumptions C16_proof_final.
 
-Theorem C16_proven_never_again : forall verifies st sub acc ok g fee,
-  has st acc = true -> snd (submit_tx verifies st sub acc ok g fee) <> SOk.
+Theorem C16_proven_never_again : forall verifies st n p sub acc ok g fee,
+  has st acc = true -> snd (submit_tx verifies st n p sub acc ok g fee) <> SOk.
 Proof. exact proven_never_again. Qed.
 Print Assumptions C16_proven_never_again.
 
-(* ---- cost: a successful submission takes exactly transaction fee + COST from the submitter, nothing from anybody
+(* ... and over any later history: every further submission for a proven address fails, whoever submits or pays,
+   whatever the signature and the nesting, and the stored proof is the same *)
+Theorem C16_proven_never_again_history : forall verifies l st n p sub acc ok g fee s,
+  proofs st acc = Some s ->
+  snd (submit_tx verifies (run verifies st l) n p sub acc ok g fee) <> SOk /\ proofs (run verifies st l) acc = Some s.
+Proof. exact proven_never_again_history. Qed.
+Print Assumptions C16_proven_never_again_history.
+
+(* ---- cost: a successful submission takes exactly COST from the submitter and exactly the transaction fee from the
+   fee payer (the same account unless the submission is nested in a MsgExec run by a grantee), nothing from anybody
    else, and the supply drops by exactly COST (the transaction fee is moved, not burnt) *)
-Theorem C16_cost_exact_burnt : forall verifies st sub acc ok g fee st',
-  submit_tx verifies st sub acc ok g fee = (st', SOk) ->
-  bal st' sub = bal st sub - fee - COST /\
-  (forall x, x <> sub -> bal st' x = bal st x) /\
+Theorem C16_cost_exact_burnt : forall verifies st n p sub acc ok g fee st',
+  submit_tx verifies st n p sub acc ok g fee = (st', SOk) ->
+  bal st' sub = bal st sub - COST - paid sub p fee /\
+  bal st' p = bal st p - fee - paid p sub COST /\
+  (forall x, x <> sub -> x <> p -> bal st' x = bal st x) /\
   supply st' = supply st - COST /\
   proofs st' acc = Some g /\ (forall x, x <> acc -> proofs st' x = proofs st x) /\
-  proofs st acc = None /\ verifies acc (s_bytes g) = true /\ fee + COST <= bal st sub.
+  proofs st acc = None /\ verifies acc (s_bytes g) = true /\ sub <> acc /\
+  COST + paid sub p fee <= bal st sub /\ fee <= bal st p.
 Proof. exact cost_exact_burnt. Qed.
 Print Assumptions C16_cost_exact_burnt.
 
+(* over any history the supply moves by exactly -COST per stored proof plus what other modules mint or burn *)
+Theorem C16_supply_history : forall verifies l st,
+  supply (run verifies st l) = supply st - COST * n_ok verifies st l + minted l.
+Proof. exact supply_history. Qed.
+Print Assumptions C16_supply_history.
+
 (* ---- a rejected submission (whatever the reason, the panic in SaveProof included) stores nothing and burns
-   nothing; the submitter loses the transaction fee iff the ante handler had passed *)
-Theorem C16_rejected_submission_inert : forall verifies st sub acc ok g fee st' r,
-  submit_tx verifies st sub acc ok g fee = (st', r) -> r <> SOk ->
+   nothing; the fee payer loses the transaction fee iff the ante handler had passed; nobody else loses anything *)
+Theorem C16_rejected_submission_inert : forall verifies st n p sub acc ok g fee st' r,
+  submit_tx verifies st n p sub acc ok g fee = (st', r) -> r <> SOk ->
   (forall x, proofs st' x = proofs st x) /\ supply st' = supply st /\ vested st' = vested st /\
-  (forall x, x <> sub -> bal st' x = bal st x) /\
-  bal st' sub = bal st sub - (if ante_passed r then fee else 0).
+  (forall x, x <> p -> bal st' x = bal st x) /\
+  bal st' p = bal st p - (if ante_passed r then fee else 0).
 Proof. exact rejected_submission_inert. Qed.
 Print Assumptions C16_rejected_submission_inert.
 
@@ -96,15 +126,20 @@ Print Assumptions C16_rejected_submission_inert.
 Definition good : sigstr := {| s_str := 1; s_bytes := 1; s_prefix := true; s_hex_ok := true; s_lower := true |}.
 Definition upper : sigstr := {| s_str := 2; s_bytes := 1; s_prefix := true; s_hex_ok := true; s_lower := false |}.
 Definition ver1 : addr -> N -> bool := fun a b => N.eqb a 5 && N.eqb b 1.
-Definition rich : vstate := {| proofs := fun _ => None; bal := fun _ => 3 * COST; supply := 100 * COST; vested := fun _ => false |}.
+Definition rich : vstate :=
+  {| proofs := fun _ => None; bal := fun _ => 3 * COST; supply := 100 * COST; vested := fun _ => false; acct := fun a => N.eqb a 9 |}.
 
 Example C16_example_submit :
-  snd (submit_tx ver1 rich 9%N 5%N true good 1000) = SOk /\
-  supply (fst (submit_tx ver1 rich 9%N 5%N true good 1000)) = 99 * COST /\
-  bal (fst (submit_tx ver1 rich 9%N 5%N true good 1000)) 9%N = 3 * COST - 1000 - COST /\
-  snd (submit_tx ver1 rich 9%N 5%N true upper 1000) = SPanicSave /\
-  snd (submit_tx ver1 rich 9%N 6%N true good 1000) = SRejBasic /\
-  snd (submit_tx ver1 (fst (submit_tx ver1 rich 9%N 5%N true good 1000)) 8%N 5%N true good 1000) = SRejConflict.
+  snd (submit_tx ver1 rich 0 9%N 9%N 5%N true good 1000) = SOk /\
+  supply (fst (submit_tx ver1 rich 0 9%N 9%N 5%N true good 1000)) = 99 * COST /\
+  bal (fst (submit_tx ver1 rich 0 9%N 9%N 5%N true good 1000)) 9%N = 3 * COST - 1000 - COST /\
+  snd (submit_tx ver1 rich 0 9%N 9%N 5%N true upper 1000) = SPanicSave /\
+  snd (submit_tx ver1 rich 0 9%N 9%N 6%N true good 1000) = SRejBasic /\
+  snd (submit_tx ver1 rich 1 8%N 9%N 6%N true good 1000) = SRejBasicNested /\
+  snd (submit_tx ver1 rich 3 8%N 9%N 5%N true good 1000) = SRejDepth /\
+  bal (fst (submit_tx ver1 rich 2 8%N 9%N 5%N true good 1000)) 9%N = 2 * COST /\
+  bal (fst (submit_tx ver1 rich 2 8%N 9%N 5%N true good 1000)) 8%N = 3 * COST - 1000 /\
+  snd (submit_tx ver1 (fst (submit_tx ver1 rich 0 9%N 9%N 5%N true good 1000)) 0 8%N 8%N 5%N true good 1000) = SRejConflict.
 Proof. vm_compute. repeat split; reflexivity. Qed.
 
 Definition vest_sh (l : list msg) : shape :=
@@ -112,9 +147,25 @@ Definition vest_sh (l : list msg) : shape :=
      s_memo := MemoNone; s_timeout := TNone; fee := [(0%N, 500000)]; gas_limit := 500000 |}.
 
 Example C16_example_vesting :
-  let proven := fst (submit_tx ver1 rich 9%N 5%N true good 1000) in
-  snd (vesting_tx proven None (fun _ => None) (vest_sh [MVesting VCreate 5%N])) = true /\
+  let proven := fst (submit_tx ver1 rich 0 9%N 9%N 5%N true good 1000) in
+  snd (vesting_tx proven None (fun _ => None) (vest_sh [MVesting VCreate 5%N])) = VOk /\
   vested (fst (vesting_tx proven None (fun _ => None) (vest_sh [MVesting VCreate 5%N]))) 5%N = true /\
-  snd (vesting_tx proven None (fun _ => None) (vest_sh [MVesting VCreate 6%N])) = false /\
-  snd (vesting_tx proven None (fun _ => None) (vest_sh [MExec [MVesting VCreate 5%N]])) = false.
+  snd (vesting_tx proven None (fun _ => None) (vest_sh [MOther 0; MVesting VPeriodic 6%N])) = VAnteRej /\
+  snd (vesting_tx proven None (fun _ => None) (vest_sh [MExec [MVesting VCreate 5%N]])) = VAnteRej /\
+  snd (vesting_tx proven None (fun _ => None) (vest_sh [MVesting VCreate 5%N; MVesting VPermanent 5%N])) = VExecFail.
 Proof. vm_compute. repeat split; reflexivity. Qed.
+
+(* the hypotheses of C16_vesting_needs_proof_partial are met by a history that does create a vesting account *)
+Definition hist1 : list (vop) :=
+  [OSubmit 0 9%N 9%N 5%N true good 1000; OMint 3%N 77; OVestingTx None (fun _ => None) (vest_sh [MOther 0; MVesting VPermanent 5%N])].
+
+Example C16_example_history :
+  Forall (fun o => is_ica o = false) hist1 /\ inv rich /\ inv (run ver1 rich hist1) /\
+  vested (run ver1 rich hist1) 5%N = true /\ has (run ver1 rich hist1) 5%N = true /\
+  supply (run ver1 rich hist1) = 99 * COST + 77 /\ n_ok ver1 rich hist1 = 1.
+Proof.
+  assert (Hf : Forall (fun o => is_ica o = false) hist1) by (repeat constructor).
+  assert (Hi : inv rich) by (intros a H; discriminate).
+  split; [exact Hf|]. split; [exact Hi|]. split; [exact (C16_vesting_needs_proof_partial ver1 hist1 rich Hf Hi)|].
+  vm_compute. repeat split; reflexivity.
+Qed.
